@@ -466,21 +466,31 @@ public:
       _transport->onClose(
         [this](SessionId sid, const TransportErrorInfo &)
         {
-          std::lock_guard<std::mutex> lock(_sessionMutex);
-          auto it = _sessionInfo.find(sid);
-          if (it != _sessionInfo.end())
+          bool wasUpgraded = false;
           {
-            iora::core::Logger::info(
-              "HttpServer: HTTP connection closed from " + it->second.peerAddress + ":" +
-              std::to_string(it->second.peerPort) + " (session " + std::to_string(sid) + ")");
-            _sessionInfo.erase(it);
-            _upgradedSessions.erase(sid);
+            std::lock_guard<std::mutex> lock(_sessionMutex);
+            auto it = _sessionInfo.find(sid);
+            if (it != _sessionInfo.end())
+            {
+              iora::core::Logger::info(
+                "HttpServer: HTTP connection closed from " + it->second.peerAddress + ":" +
+                std::to_string(it->second.peerPort) + " (session " + std::to_string(sid) + ")");
+              _sessionInfo.erase(it);
+              wasUpgraded = _upgradedSessions.erase(sid) > 0;
+            }
+            else
+            {
+              wasUpgraded = _upgradedSessions.erase(sid) > 0;
+              iora::core::Logger::debug("HttpServer: Connection closed (session " +
+                                        std::to_string(sid) + ")");
+            }
           }
-          else
+          // Check-then-release (like onUpgradedData): the override may take a lock
+          // that is OUTER to _mutex/_sessionMutex. Skipped once stop() has begun:
+          // stop() holds _mutex while the engine closes the remaining sessions.
+          if (wasUpgraded && !_shutdown)
           {
-            _upgradedSessions.erase(sid);
-            iora::core::Logger::debug("HttpServer: Connection closed (session " +
-                                      std::to_string(sid) + ")");
+            onUpgradedSessionClosed(sid);
           }
         });
 
@@ -612,6 +622,15 @@ protected:
                               std::size_t len)
   {
     (void)sid; (void)data; (void)len;
+  }
+
+  /// \brief Called when the connection of an upgraded session is gone (peer
+  /// drop, closeSession, idle timeout), with NO HttpServer lock held. Override to
+  /// release per-session state kept for onUpgradedData(). Not called for sessions
+  /// torn down by stop().
+  virtual void onUpgradedSessionClosed(SessionId sid)
+  {
+    (void)sid;
   }
 
   /// \brief Send raw bytes to a session (for WebSocket frame sending).
